@@ -381,13 +381,19 @@ def native_faults(seed):
             raise ValueError("custom field function fails")
         return observers * 0.0
 
+    def ff_interrupt(field, observers):
+        calls["n"] += 1
+        if calls["n"] > 2:
+            raise KeyboardInterrupt  # Ctrl-C during a long custom field function: not an Exception subclass
+        return observers * 0.0
+
     def ff_shape(field, observers):
         calls["n"] += 1
         return np.zeros((len(observers) + (1 if calls["n"] > 2 else 0), 3))
 
     bad, n = [], 0
     for m_sens in (1, 3):
-        for case in ("ff_none", "ff_raise", "ff_shape", "missing_dimension", "missing_excitation", "bad_pixel_agg", "bad_output",
+        for case in ("ff_none", "ff_raise", "ff_interrupt", "ff_shape", "missing_dimension", "missing_excitation", "bad_pixel_agg", "bad_output",
                      "pixel_shapes", "bad_field_func_none", "ok"):
             calls["n"] = 0
             cub = magpy.magnet.Cuboid(dimension=(1, 2, 3), polarization=(0.1, 0.2, 0.3), position=rng.normal(size=(2, 3)))
@@ -397,7 +403,7 @@ def native_faults(seed):
             col = magpy.Collection(cyl)
             srcs, obs, kw = [cub, col], [sens], {}
             if case.startswith("ff_"):
-                srcs = [cub, magpy.misc.CustomSource(field_func={"ff_none": ff_none, "ff_raise": ff_raise, "ff_shape": ff_shape}[case]), col]
+                srcs = [cub, magpy.misc.CustomSource(field_func={"ff_none": ff_none, "ff_raise": ff_raise, "ff_shape": ff_shape, "ff_interrupt": ff_interrupt}[case]), col]
             elif case == "missing_dimension":
                 srcs = [cub, magpy.magnet.Cuboid(polarization=(1, 2, 3)), col]
             elif case == "missing_excitation":
@@ -418,7 +424,7 @@ def native_faults(seed):
             try:
                 magpy.getB(srcs, obs, **kw)
                 raised = None
-            except Exception as e:  # pylint: disable=broad-except
+            except BaseException as e:  # pylint: disable=broad-except
                 raised = type(e).__name__
             try:
                 magpy.getH(cub, user_obs)
